@@ -814,6 +814,23 @@ def nnf_implies(spec, guard):
     return True
 
 
+def nnf_sat(t):
+    """is the NNF term satisfiable (atoms independent)?"""
+    atoms = sorted(_atoms(t, set()))
+    if len(atoms) > 16:
+        return True
+    for bits in range(1 << len(atoms)):
+        if _ev(t, {a: bool(bits >> i & 1) for i, a in enumerate(atoms)}):
+            return True
+    return False
+
+
+def nnf_not(t):
+    if t[0] == "lit":
+        return ("lit", not t[1], t[2])
+    return ("or" if t[0] == "and" else "and", frozenset(nnf_not(k) for k in t[1]))
+
+
 def nnf_equiv(a, b):
     return nnf_implies(a, b) and nnf_implies(b, a)
 
@@ -1212,22 +1229,37 @@ def inline_temporaries(expr, stmt, fn, depth=4, only=None, exclude=()):
     return _renorm(rec(expr, stmt, depth))
 
 
-def forwarding_gaps(caller_fn, callee_name, names):
+def forwarding_gaps(caller_fn, callee_name, names, as_received=False):
     """For every call of ``callee_name`` in caller_fn: which of ``names`` are NOT passed as name=name (or positionally as
     the bare name)?  Returns [(call, missing names, wrong {name: expr})]."""
     out = []
+    flow = None
     for c in calls_in(caller_fn):
         if last_attr(c) != callee_name:
             continue
         passed = {k.arg: k.value for k in c.keywords if k.arg}
-        pos = {canon(a) for a in c.args}
+        pos = {canon(a): a for a in c.args}
         missing, wrong = [], {}
         for n in names:
+            v = None
             if n in passed:
-                if canon(passed[n]) not in (n, "self." + n):
-                    wrong[n] = passed[n]
-            elif n not in pos and ("self." + n) not in pos:
+                v = passed[n]
+                if canon(v) not in (n, "self." + n):
+                    wrong[n] = v
+                    continue
+            elif n in pos or ("self." + n) in pos:
+                v = pos.get(n, pos.get("self." + n))
+            else:
                 missing.append(n)
+                continue
+            # the name must still hold what the caller received: a re-binding of the option before the call (a default
+            # resolved early, a clamp) forwards something else under the same name
+            if as_received and isinstance(v, ast.Name) and v.id in param_names(caller_fn):
+                if flow is None:
+                    flow = Flow(caller_fn)
+                r = flow.resolve(v, at=enclosing_stmt(c))
+                if canon(r) != n:
+                    wrong[n] = r
         out.append((c, missing, wrong))
     return out
 
@@ -1364,4 +1396,96 @@ def term_strings(terms):
             out.add(("+" if l[1] else "-") + l[2])
         else:
             out.add(str(l))
+    return out
+
+
+# ----------------------------------------------------------------------------
+# Writes into storage shared with given root objects (flow-insensitive may-alias over views)
+# ----------------------------------------------------------------------------
+
+_VIEW_CALLS = {"asarray", "asanyarray", "atleast_1d", "atleast_2d", "ravel", "reshape", "squeeze", "view", "transpose", "swapaxes", "diagonal", "broadcast_to", "expand_dims"}
+_VIEW_ATTRS = {"T", "value", "real", "imag", "flat", "data", "base", "columns", "tbl"}
+_MUTATING_METHODS = {"sort", "fill", "resize", "put", "itemset", "setfield", "partition", "append", "extend", "insert", "pop", "remove", "clear", "update",
+                     "setdefault", "add_column", "add_columns", "remove_column", "remove_columns", "rename_column", "replace_column", "add_row", "remove_row",
+                     "remove_rows", "reverse", "popitem", "keep_columns", "setflags"}
+_MUTATING_FUNCS = {"shuffle": 0, "copyto": 0, "put": 0, "place": 0, "putmask": 0, "fill_diagonal": 0, "put_along_axis": 0}
+
+
+def storage_writes(fn, is_root):
+    """Statements / calls of ``fn`` that may write into storage shared with a root object.  ``is_root(expr)`` decides for Name / Attribute / Call nodes
+    whether the expression IS a root object.  Views are followed through plain bindings, subscripts (not by an integer constant: that yields a scalar),
+    view attributes (.T, .value, ...), view calls (np.asarray, .reshape, ...), conditional expressions and loop targets.  Anything produced by another call or
+    by arithmetic is fresh.  Returns [(node, text)]."""
+    binds = {}
+    for s in walk_local(fn):
+        if isinstance(s, ast.Assign):
+            for t in s.targets:
+                if isinstance(t, ast.Name):
+                    binds.setdefault(t.id, []).append(s.value)
+                elif isinstance(t, (ast.Tuple, ast.List)) and isinstance(s.value, (ast.Tuple, ast.List)) and len(t.elts) == len(s.value.elts):
+                    for a, b in zip(t.elts, s.value.elts):
+                        if isinstance(a, ast.Name):
+                            binds.setdefault(a.id, []).append(b)
+        elif isinstance(s, (ast.AnnAssign, ast.NamedExpr)) and isinstance(s.target, ast.Name) and s.value is not None:
+            binds.setdefault(s.target.id, []).append(s.value)
+        elif isinstance(s, ast.For) and isinstance(s.target, ast.Name):
+            binds.setdefault(s.target.id, []).append(ast.Subscript(value=s.iter, slice=ast.Name(id="@elem", ctx=ast.Load()), ctx=ast.Load()))
+    seen = {}
+
+    def alias(e, depth=0):
+        if depth > 12:
+            return False
+        if is_root(e):
+            return True
+        if isinstance(e, ast.Name):
+            if e.id in seen:
+                return seen[e.id]
+            seen[e.id] = False
+            r = any(alias(v, depth + 1) for v in binds.get(e.id, []))
+            seen[e.id] = r
+            return r
+        if isinstance(e, ast.Subscript):
+            if isinstance(e.slice, ast.Constant) and isinstance(e.slice.value, int):
+                return False
+            return alias(e.value, depth + 1)
+        if isinstance(e, ast.Attribute):
+            return e.attr in _VIEW_ATTRS and alias(e.value, depth + 1)
+        if isinstance(e, ast.IfExp):
+            return alias(e.body, depth + 1) or alias(e.orelse, depth + 1)
+        if isinstance(e, ast.Starred):
+            return alias(e.value, depth + 1)
+        if isinstance(e, ast.Call):
+            nm = (call_name(e) or "").split(".")[-1]
+            if nm in _VIEW_CALLS:
+                if isinstance(e.func, ast.Attribute) and alias(e.func.value, depth + 1):
+                    return True
+                return bool(e.args) and alias(e.args[0], depth + 1)
+        return False
+
+    out = []
+    for s in walk_local(fn):
+        if isinstance(s, ast.AugAssign):
+            t = s.target
+            if isinstance(t, ast.Name) and alias(t):
+                out.append((s, "`%s` updates in place an array that is a view of the input" % unparse(s)[:60]))
+            elif isinstance(t, (ast.Subscript, ast.Attribute)) and alias(t.value):
+                out.append((s, "`%s` writes into the input" % unparse(s)[:60]))
+        elif isinstance(s, ast.Assign):
+            for t in s.targets:
+                for tt in (t.elts if isinstance(t, (ast.Tuple, ast.List)) else [t]):
+                    if isinstance(tt, (ast.Subscript, ast.Attribute)) and alias(tt.value):
+                        out.append((s, "`%s` writes into the input" % unparse(s)[:60]))
+        elif isinstance(s, ast.Delete):
+            for t in s.targets:
+                if isinstance(t, (ast.Subscript, ast.Attribute)) and alias(t.value):
+                    out.append((s, "`%s` deletes from the input" % unparse(s)[:60]))
+        elif isinstance(s, ast.Call):
+            for k in s.keywords:
+                if k.arg == "out" and alias(k.value):
+                    out.append((s, "`%s` writes its result into the input (out=)" % unparse(s)[:70]))
+            if isinstance(s.func, ast.Attribute) and s.func.attr in _MUTATING_METHODS and alias(s.func.value):
+                out.append((s, "`%s` changes the input in place" % unparse(s)[:60]))
+            nm = (call_name(s) or "").split(".")[-1]
+            if nm in _MUTATING_FUNCS and len(s.args) > _MUTATING_FUNCS[nm] and alias(s.args[_MUTATING_FUNCS[nm]]):
+                out.append((s, "`%s` changes the input in place" % unparse(s)[:60]))
     return out
